@@ -326,3 +326,15 @@ for _p, _what in (("C01", "one internal / external step and a whole run (run_sta
          "total division), every LA / GenPrelude operation commutes with the entry-wise embedding, hence running the model at Q and embedding equals running it at R on the embedded data - %s; the "
          "runner's tolerance test satisfies qclose m o = true <-> |Q2R m - Q2R o| <= 1e-9 max(1, |Q2R m|), so a verdict chk_* = true is a statement about the R-model the theorems are about." % (_p, _what))
 _app("C17", "note", " Since the Q-to-R bridge was appended, the cone of props/C17.v imports Reals: the window theorems proper are still closed under the global context, the bridge theorems carry the two Reals axioms.")
+
+for _p, _what in (("C19", "mse, rsquare, rsquare_parts, nrmse_parts for all four norms (max/min, the sort behind np.quantile, zero denominators included), eff_matrix, on arrays of rank 1-3 "
+                          "(C19_Qmetrics_embed, C19_chk_metrics_are_about_R_model)"),
+                  ("C20", "logistic_map with its guards, henon_map, narma of any order; the helpers are structural (commute with any map f; one_hot is instance-independent) "
+                          "(C20_Qmaps_embed, C20_Qhelpers_structural, C20_chk_*_are_about_R_model)"),
+                  ("C09", "every sum of BatchAcc, XXT_of / YXT_of, and Conc.run for any schedule with or without the lock as a simulation relation (C09_Qbatchacc_embed, C09_Qsched_embed, "
+                          "C09_chk_buffers_are_about_R_model); chk_solution only up to the soundness of the Q-only Gauss-Jordan routine (C09_chk_solution_partial; the full statement stays a Definition)"),
+                  ("C13", "null_radius, scale_sr, scalar and per-column input scaling, COO assembly with duplicate summation, ring, line, degree lists (C13_Qscaling_embed, C13_Qstructured_embed, "
+                          "C13_chk_matgen_is_about_R_model)"),
+                  ("C15", "chk_pair = true yields over R: both trajectories close to the observed rows, 0 <= sigma, the Frobenius certificate frob2 W <= sigma^2, 0 <= lr <= 1, the squared contraction "
+                          "inequality at every step and the box (C15_chk_pair_is_about_R_model, C15_contractingR_geometric; exact activations only)")):
+    _app(_p, "text", " The R-vs-Q instance gap is closed by proof for this property (coq/base/NumHom.v, coq/proofs/QR_bridge_%s.v): %s." % (_p, _what))
